@@ -14,6 +14,7 @@ import (
 	"fmt"
 	"os"
 	"sort"
+	"strings"
 	"syscall"
 
 	"github.com/piotrnar/gocoin/client/txpool"
@@ -798,6 +799,9 @@ func main() {
 		if only != "" && sc.name != only {
 			continue
 		}
+		if pf := os.Getenv("VERIF_C12_ONLY"); pf != "" && !strings.HasPrefix(sc.name, pf) {
+			continue // development aid: run the scenarios with this name prefix only (same PRNG streams)
+		}
 		w := runScenario(r, sc, g)
 		if w.dead {
 			break // a goroutine is stuck inside gocoin holding TxMutex
@@ -811,5 +815,5 @@ func finish(r *vlib.Run) {
 	os.Stdout = realOut
 	syscall.Dup2(int(realErr.Fd()), 2)
 	r.Finish("one case = the real pool state after one operation of a history (submit net/trusted/local, block, reorg, expiry tick, eviction tick, save+reload); distinct = different (pool, rejected) dumps; each compared with the Lean model and checked against the property predicate incl. a block template validated by the node",
-		"Real client/txpool driven in-process on a chainkit chain with the client's own wiring; after every operation the full observable state (TransactionsToSend with Fee/Volume/MemInputs/Final/Local, SpentOutputs, reject ring, WaitingForInputs, RejectedSpentOutputs, sorted list, totals) is compared with Model/Mempool.lean, gocoin's FeePackages are validated by the model (pkgOK) and its merge of the sorted list with them is compared element by element with GetSortedMempoolRBF(), and C12's predicate is evaluated directly on the real pool: no double spend, every input confirmed-unspent or pooled, SpentOutputs exact, nothing pooled confirmed, Fee = in - out, sizes from the raw bytes, MempoolCheck(), GetSortedMempoolRBF() parents-first permutation, block built from it accepted by CheckBlock + ProcessBlockTransactions with scripts verified.")
+		"Real client/txpool driven in-process on a chainkit chain with the client's own wiring; after every operation the full observable state (TransactionsToSend with Fee/Volume/MemInputs/Final/Local, SpentOutputs, reject ring, WaitingForInputs, RejectedSpentOutputs, sorted list, totals) is compared with Model/Mempool.lean, gocoin's FeePackages are validated by the model (pkgOK) and its merge of the sorted list with them is compared element by element with GetSortedMempoolRBF(), and C12's predicate is evaluated directly on the real pool: no double spend, every input confirmed-unspent or pooled, SpentOutputs exact, nothing pooled confirmed, Fee = in - out, sizes from the raw bytes, MempoolCheck(), GetSortedMempoolRBF() and GetSortedMempool() parents-first permutations of the pool, block built from the former accepted by CheckBlock + ProcessBlockTransactions with scripts verified.")
 }
